@@ -1,8 +1,10 @@
 (* C01 — incremental (partial) resync converges to the same configuration as a full sync.
    Statements only. See DESIGN.md (C01) for what is proved in full and what is proved
    under explicitly listed premises. *)
-From Coq Require Import List Bool String Relations.
+From Coq Require Import List Bool String Relations ZArith.
 From HI Require Import Model.Tracker Model.Conv Proofs.Tracker Proofs.IncSync Proofs.Conv.
+From HI Require Import Model.ConvDB Proofs.ConvSort Proofs.ConvHist_base Proofs.ConvHist_keys Proofs.ConvHist_sim
+                       Proofs.ConvBack Proofs.ConvHist Proofs.ConvDB_base Proofs.ConvDB Proofs.ConvDB_hist Proofs.ConvDB_multi.
 Import ListNotations.
 
 (* 1. QueryLinks(changed, remove) on a symmetric tracker returns exactly the references
@@ -142,3 +144,111 @@ Theorem C01_sync_partial_hosts_under_H :
   hosts_eq s' (fst (sync_full w')).
 Proof. exact sync_partial_hosts. Qed.
 Print Assumptions C01_sync_partial_hosts_under_H.
+
+(* ================================================================== *)
+(* 7. spec.defaultBackend (Model/ConvDB.v = Model/Conv.v + the default backend of an      *)
+(*    Ingress, following addDefaultHostBackend / trackAddedIngress / syncPartial)          *)
+(* ================================================================== *)
+
+(* 7a. ConvDB is conservative: on clusters and batches without default backends it computes
+       what Conv computes, for the full and for the partial sync; so every theorem of
+       Properties/C01_model.v holds of ConvDB on such histories (two of them restated). *)
+Theorem C01_convdb_conservative :
+  (forall w, sync_full_d (lift_world w) = sync_full w) /\
+  (forall w' x b, sync_partial_d (lift_world w') x (lift_batch b) = sync_partial w' x b).
+Proof. exact (conj sync_full_d_lift sync_partial_d_lift). Qed.
+Print Assumptions C01_convdb_conservative.
+
+Theorem C01_convdb_history_general_lift : forall (w0 : world) (h : list (batch * world)),
+  hist_ok_g w0 h ->
+  exists x', run_hist_d (sync_full_d (lift_world w0)) (lift_hist h) = Some x' /\
+             hosts_eq (fst x') (fst (sync_full_d (last_dw (lift_world w0) (lift_hist h)))).
+Proof. exact history_general_lift. Qed.
+Print Assumptions C01_convdb_history_general_lift.
+
+Theorem C01_convdb_history_obs_lift : forall (w0 : world) (h : list (batch * world)),
+  hist_ok_o w0 h -> back_det (last_w w0 h) ->
+  exists x', run_hist_d (sync_full_d (lift_world w0)) (lift_hist h) = Some x' /\
+             forall hn, obs_host (fst x') hn
+                        = obs_host (fst (sync_full_d (last_dw (lift_world w0) (lift_hist h)))) hn.
+Proof. exact history_obs_lift. Qed.
+Print Assumptions C01_convdb_history_obs_lift.
+
+(* 7b. The known finding C01/ingress-default-backend-not-pretracked is a behaviour of the
+       model: ns1/ing2 owns the root path of the default host through its default backend;
+       ns1/ing1, older, is created with a default backend.  The partial sync keeps the path
+       on ing2's service, a full sync of the same cluster gives it to ing1.  (The harness
+       runs this history on the real code, sees the same divergence, and the correspondence
+       checks that the model computes the real incremental state.) *)
+Theorem C01_default_backend_refuted :
+  exists (c : dworld) (evs : list (dbatch * dworld)),
+    obs_d (run_hist_d (sync_full_d c) evs) "<default>"
+    <> obs_d (Some (sync_full_d (last_dw c evs))) "<default>".
+Proof.
+  exists kf_w0, [(kf_b1, kf_w1)]. destruct default_backend_refuted as [H1 H2].
+  rewrite H1, H2. discriminate.
+Qed.
+Print Assumptions C01_default_backend_refuted.
+
+Theorem C01_default_backend_refuted_witness :
+  obs_d (run_hist_d (sync_full_d kf_w0) [(kf_b1, kf_w1)]) "<default>"
+    = Some (Some ([("/", Begin, [("10.1.0.1", 8080%Z)])], None)) /\
+  obs_d (Some (sync_full_d (last_dw kf_w0 [(kf_b1, kf_w1)]))) "<default>"
+    = Some (Some ([("/", Begin, [("10.1.0.2", 9090%Z)])], None)) /\
+  ~ H_db kf_w1 (sync_full_d kf_w0) kf_b1.
+Proof. exact (conj (proj1 default_backend_refuted) (conj (proj2 default_backend_refuted) known_finding_not_H_db)). Qed.
+Print Assumptions C01_default_backend_refuted_witness.
+
+(* 7c. Under H the theorem holds for ConvDB, at the level of the full observation.
+       H = H_db w' x b, required of every step (hist_ok_d): whenever the batch adds or updates
+       an ingress that carries a default backend, QueryLinks (on the tracker of the state
+       plus the links of trackAddedIngress) returns the default host.  It excludes exactly
+       the finding (7b violates it); it holds when no added / updated ingress has a default
+       backend (H_db_no_db) or when such an ingress also declares the default host in a
+       rule or tls block (H_db_declared).  The other premises are those of
+       C01_model_history_obs: well formed batches (several events per object allowed) that
+       name the changed Services, Endpoints and Secrets; back_det of the last cluster. *)
+Theorem C01_default_backend_under_H : forall (w0 : dworld) (h : list (dbatch * dworld)),
+  hist_ok_d w0 (sync_full_d w0) h -> back_det (base (last_dw w0 h)) ->
+  exists x', run_hist_d (sync_full_d w0) h = Some x' /\
+             forall hn, obs_host (fst x') hn = obs_host (fst (sync_full_d (last_dw w0 h))) hn.
+Proof. exact model_history_d_obs. Qed.
+Print Assumptions C01_default_backend_under_H.
+
+(* one step: the invariant is re-established *)
+Theorem C01_default_backend_step_under_H : forall (w w' : dworld) (x : st) (b : dbatch),
+  InvO_d w x -> batch_wf_d w w' b -> batch_links_ok_e (base w) (base w') (base_batch b) -> H_db w' x b ->
+  exists x', sync_partial_d w' x b = Some x' /\ InvO_d w' x'.
+Proof. exact model_partial_step_d. Qed.
+Print Assumptions C01_default_backend_step_under_H.
+
+(* hosts level, without back_det *)
+Theorem C01_default_backend_under_H_hosts : forall (w0 : dworld) (h : list (dbatch * dworld)),
+  hist_ok_d w0 (sync_full_d w0) h ->
+  exists x', run_hist_d (sync_full_d w0) h = Some x' /\
+             hosts_eq (fst x') (fst (sync_full_d (last_dw w0 h))).
+Proof. exact model_history_d_hosts. Qed.
+Print Assumptions C01_default_backend_under_H_hosts.
+
+(* a premise on the batches only: no added / updated ingress carries a default backend
+   (ingresses with a default backend may exist, be deleted, lose or win the root path) *)
+Theorem C01_default_backend_nodb_batches : forall (w0 : dworld) (h : list (dbatch * dworld)),
+  hist_ok_d_nodb w0 h -> back_det (base (last_dw w0 h)) ->
+  exists x', run_hist_d (sync_full_d w0) h = Some x' /\
+             forall hn, obs_host (fst x') hn = obs_host (fst (sync_full_d (last_dw w0 h))) hn.
+Proof. exact model_history_d_nodb_obs. Qed.
+Print Assumptions C01_default_backend_nodb_batches.
+
+(* the premises are satisfiable with default backends at work: the owner of the root path is
+   deleted and the skipped ingress takes over; then an older ingress with a default backend
+   and a rule without host is created and wins *)
+Theorem C01_default_backend_under_H_example :
+  hist_ok_d hw0 (sync_full_d hw0) dhist /\ back_det (base hw2) /\
+  obs_d (run_hist_d (sync_full_d hw0) dhist) "<default>" = obs_d (Some (sync_full_d hw2)) "<default>" /\
+  obs_d (Some (sync_full_d hw2)) "<default>"
+    = Some (Some ([("/", Begin, [("10.1.0.1", 8080%Z)]); ("/app", Prefix, [("10.1.0.1", 8080%Z)])], None)).
+Proof.
+  refine (conj (proj1 db_history_ok) (conj (proj2 db_history_ok) _)).
+  exact (proj2 (proj2 db_history_eval)).
+Qed.
+Print Assumptions C01_default_backend_under_H_example.
